@@ -134,7 +134,13 @@ def execute(job):
         if fn == "member":
             R = geom.o24_matrix(geom.rot(c["r"]))
             P = geom.se3(R, u * np.array([1.0, -2.0, 3.0]))
-            if c["what"] == "scaled":
+            if c["what"] == "f32":
+                a, b = math.radians(37.0 + n % 11), math.radians(21.0 + n % 7)
+                G = np.array([[math.cos(a), -math.sin(a), 0.0], [math.sin(a), math.cos(a), 0.0], [0.0, 0.0, 1.0]]) @ \
+                    np.array([[1.0, 0.0, 0.0], [0.0, math.cos(b), -math.sin(b)], [0.0, math.sin(b), math.cos(b)]])
+                R = (G @ R).astype(np.float32).astype(np.float64)
+                P = geom.se3(R, P[:3, 3])
+            elif c["what"] == "scaled":
                 R, P = 2.0 * R, geom.se3(2.0 * R, P[:3, 3])
             elif c["what"] == "shear":
                 R = R.copy()
